@@ -11,6 +11,7 @@ CONSTANTS
   FixDetach = TRUE
   FixUpdater = TRUE
   CfgOK <- CfgOne
+  Features <- FeatNone
 SPECIFICATION MCLive
 VIEW View
 INVARIANTS TypeOK
